@@ -61,6 +61,10 @@ fn message_sequences(tier: Tier) -> Vec<Vec<Vec<u8>>> {
     // default-settings sequences crossing 8 KiB / 32 KiB
     seqs.push(vec![payload(9000, 1), payload(5, 0)]);
     seqs.push(vec![payload(20000, 0), payload(13000, 1), payload(7, 1)]);
+    // poorly compressible messages whose compressed form exceeds the (de)compressors' internal
+    // buffers (32 KiB for gzip/deflate, 128 KiB for zstd)
+    seqs.push(vec![payload(70_000, 1)]);
+    seqs.push(vec![payload(3, 0), payload(150_000, 1), payload(1, 1)]);
     seqs
 }
 
@@ -188,6 +192,8 @@ struct DecCase {
     response: bool,
     free: bool,
     drip: bool,
+    /// fixed cyclic chunk lengths (big streams)
+    fixed: Option<Vec<usize>>,
 }
 
 fn drive<T>(mut s: Streaming<T>, ser: impl Fn(&T) -> Vec<u8>) -> (Vec<Result<Vec<u8>, String>>, u32, bool) {
@@ -222,10 +228,14 @@ fn dec_body(c: &DecCase, ch: &Chooser) -> Outcome {
     let wire_bytes = encode(e, e.settings, false, ch).bytes();
     let (frames, _) = wire::parse_frames(&wire_bytes, &[0, 1]);
     let marks = wire::interior_offsets(&frames);
-    let chunking = if c.drip {
+    let chunking = if let Some(f) = &c.fixed {
+        Chunking::Fixed(f.clone())
+    } else if c.drip {
         Chunking::Fixed(vec![1])
     } else {
-        Chunking::Choose { free: c.free, pending: true, empty: true }
+        // exhaustive-composition cases take no Pending/empty-frame deviations (they would multiply
+        // the 2^(n-1) compositions by every placement); those are explored in the bounded cases
+        Chunking::Choose { free: c.free, pending: !c.free, empty: !c.free }
     };
     let trailers = if c.response {
         let mut h = HeaderMap::new();
@@ -274,7 +284,7 @@ fn dec_body(c: &DecCase, ch: &Chooser) -> Outcome {
     if got_ok != want {
         o.violate(
             "decode-mismatch",
-            format!("decoded {} messages {:?}, expected {} messages {:?}", got_ok.len(), got_ok.iter().map(|m| hex(m)).collect::<Vec<_>>(), want.len(), want.iter().map(|m| hex(m)).collect::<Vec<_>>()),
+            format!("decoded {} messages {:?}, expected {} messages {:?}", got_ok.len(), got_ok.iter().map(|m| crate::explore::truncate(&hex(m), 48)).collect::<Vec<_>>(), want.len(), want.iter().map(|m| crate::explore::truncate(&hex(m), 48)).collect::<Vec<_>>()),
         );
     }
     if ends < 3 {
@@ -330,14 +340,39 @@ pub fn property(tier: Tier) -> Property {
             if big {
                 // too long for chosen cuts at bound>1: drip + bound-limited single cuts are
                 // covered by a dedicated case below
-                dec_cases.push(DecCase { enc_case: c.clone(), response, free: false, drip: true });
+                dec_cases.push(DecCase { enc_case: c.clone(), response, free: false, drip: true, fixed: None });
+                dec_cases.push(DecCase { enc_case: c.clone(), response, free: false, drip: false, fixed: Some(vec![]) });
+                dec_cases.push(DecCase { enc_case: c.clone(), response, free: false, drip: false, fixed: Some(vec![3, 16384, 1, 5000]) });
                 continue;
             }
             let free = c.enc.is_none() && approx_len <= free_limit;
-            dec_cases.push(DecCase { enc_case: c.clone(), response, free, drip: false });
-            dec_cases.push(DecCase { enc_case: c.clone(), response, free: false, drip: true });
+            dec_cases.push(DecCase { enc_case: c.clone(), response, free, drip: false, fixed: None });
+            dec_cases.push(DecCase { enc_case: c.clone(), response, free: false, drip: true, fixed: None });
         }
     }
+    // streams longer than 72 wire bytes get one deviation less (the number of chunkings with k cuts
+    // grows as len^k); every single cut position is still covered for them
+    let (dec_cases, long_cases): (Vec<DecCase>, Vec<DecCase>) = dec_cases.into_iter().partition(|c| {
+        let len: usize = c
+            .enc_case
+            .msgs
+            .iter()
+            .map(|m| {
+                let s = ser(c.enc_case.prost, m);
+                5 + c.enc_case.enc.map(|e| comp::compress(e, &s).len()).unwrap_or(s.len())
+            })
+            .sum();
+        c.drip || c.free || c.fixed.is_some() || len <= 72
+    });
+    let long_sec = Section::new(
+        "decode-long",
+        Config { max_bound: tier.q(1, 2), ..Default::default() },
+        "as section decode, for streams longer than 72 wire bytes: every chunking with <= bound cuts / Pending / empty-frame deviations (bound one less than for short streams). Non-trivial = at least one chunk boundary fell strictly inside a frame.",
+        long_cases,
+        |c: &DecCase| format!("prost={} settings={:?} msgs={:?} enc={} response={} free={} drip={}", c.enc_case.prost, c.enc_case.settings, c.enc_case.msgs.iter().map(|m| m.len()).collect::<Vec<_>>(), enc_name(c.enc_case.enc), c.response, c.free, c.drip),
+        dec_body,
+    )
+    .mins(500, 5, 100);
     let dec_sec = Section::new(
         "decode",
         Config { max_bound: tier.q(2, 3), ..Default::default() },
@@ -356,7 +391,7 @@ pub fn property(tier: Tier) -> Property {
             "payload values matter only to the compressors; covered by two byte patterns x sizes, not all bytes".into(),
             "flate2/zstd used directly as the reference (de)compressors".into(),
         ],
-        sections: vec![enc_sec, dec_sec],
+        sections: vec![enc_sec, dec_sec, long_sec],
         extra: Default::default(),
     }
 }
